@@ -174,12 +174,15 @@ class AttentionFusion(pattern.RewriteRuleClassBase):
             hidden_size = projected.shape[2]
             if not isinstance(hidden_size, int):
                 return check_result.fail("Hidden size is not an integer.", projected)
+            end1_value = _ir_utils.get_singleton_value(end1)
+            end2_value = _ir_utils.get_singleton_value(end2)
+            # A bound that is not a constant has value None: None == None must not pass.
             if not (
                 _ir_utils.is_singleton_value(start1, 0)
-                and _ir_utils.get_singleton_value(end1)
-                == _ir_utils.get_singleton_value(start2)
-                and _ir_utils.get_singleton_value(end2)
-                == _ir_utils.get_singleton_value(start3)
+                and end1_value is not None
+                and end1_value == _ir_utils.get_singleton_value(start2)
+                and end2_value is not None
+                and end2_value == _ir_utils.get_singleton_value(start3)
                 and _ir_utils.is_singleton_value(end3, lambda x: x >= hidden_size)
             ):
                 return check_result.fail(
